@@ -149,7 +149,10 @@ CHECKS = {
             "discrete-event scheduler; async-vs-sync CPU equivalence on the machine driver",
             "Every task set of the stated families (1-4 cooperative tasks, all sleep/emit/pending scripts up to the stated "
             "length) is run under every budget sequence up to the stated length plus a drain on the real scheduler; the "
-            "resumption log must be a prefix of / equal to the reference log and events must come back exactly once in order.",
+            "resumption log must be a prefix of / equal to the reference log and events must come back exactly once in order. "
+            "CPU half: every machine configuration (8 firmware loops x handlers x IMR x timer periods x pre-applied key events) x "
+            "every instruction count 0..10/16 x 7 slice sizes, every two-run split and mixed sync/async run through "
+            "AsyncRuntimeRunner vs CoreRuntime::step on a twin machine (registers, memory, counters, timers, interrupt bookkeeping).",
             "Durations come from {0,1,2,3,5}; budgets from {1,2,3,4,7}; larger sets/scripts are not explored. Budget "
             "accounting itself (whether a task due exactly at the budget edge runs) is not part of the statement.",
             "DESIGN.md section 4, C18"),
